@@ -31,6 +31,9 @@ Proof. vm_compute. reflexivity. Qed.
    (a header dump of a 5xx exchange, say) can reappear in a later url / short-url line *)
 Lemma ob_log_builders_fresh_per_line : log_builders_fresh_per_line = true.
 Proof. vm_compute. reflexivity. Qed.
+(* --log-http: a named module keeps its mode whatever unnamed default is given before or after it *)
+Lemma ob_httplog_named_always_marks_changed : httplog_named_always_marks_changed = true.
+Proof. vm_compute. reflexivity. Qed.
 Lemma ob_describe_shape : describe_sorted_name_eq_value = true.
 Proof. vm_compute. reflexivity. Qed.
 (* nobody asks DescribeFlags for the unredacted values *)
